@@ -379,11 +379,64 @@ fn replay(path: &str) -> i32 {
 }
 
 
+
+/// Cold start under contention: this process has done nothing with the engine except building one
+/// state (parser + take_action). Eight threads released together then query and expand it for the
+/// first time; afterwards the same work is done sequentially and must give the same transcripts.
+/// Anything the engine initialises lazily on first use (a table, a cache, a once-cell) is initialised
+/// inside that burst. usage: c18_conc firstuse <file.json> ; exit 1 + message on a difference.
+fn firstuse(path: &str) -> i32 {
+    use std::sync::atomic::{AtomicUsize, Ordering};
+    let text = std::fs::read_to_string(path).expect("read");
+    let v: Value = serde_json::from_str(&text).expect("json");
+    let diagram = v["diagram"].as_str().expect("diagram");
+    let actions: Vec<Action> = v["actions"].as_array().unwrap().iter().map(|x| drive::parse_action_text(x.as_str().unwrap()).unwrap()).collect();
+    let threads = v["threads"].as_u64().unwrap_or(8) as usize;
+    // nothing but parser + take_action before the burst
+    let mut g: GameState = diagram.parse().expect("diagram parses");
+    for a in actions.iter() {
+        g = g.take_action(a);
+    }
+    let root = Arc::new(g);
+    let go = Arc::new(AtomicUsize::new(0));
+    let hs: Vec<_> = (0..threads)
+        .map(|_| {
+            let root = root.clone();
+            let go = go.clone();
+            std::thread::spawn(move || {
+                go.fetch_add(1, Ordering::SeqCst);
+                while go.load(Ordering::SeqCst) < threads {
+                    std::hint::spin_loop();
+                }
+                let mut t = Transcript::default();
+                t.put(root.transposition_hash());
+                expand(&root, 2, &mut t);
+                (t.h, t.items)
+            })
+        })
+        .collect();
+    let con: Vec<(u64, u64)> = hs.into_iter().map(|h| h.join().unwrap_or((0xdead, 0))).collect();
+    let mut t = Transcript::default();
+    t.put(root.transposition_hash());
+    expand(&root, 2, &mut t);
+    let seq = (t.h, t.items);
+    for (i, c) in con.iter().enumerate() {
+        if *c != seq {
+            println!("C18:cold_start: thread {} of {}: the first concurrent use of a freshly built state gave a transcript (hash {:#x}, {} items) that differs from the sequential one (hash {:#x}, {} items)", i, threads, c.0, c.1, seq.0, seq.1);
+            return 1;
+        }
+    }
+    0
+}
+
 fn main() {
     install_hook();
     let args: Vec<String> = std::env::args().collect();
     if args.len() >= 3 && args[1] == "replay" {
         std::process::exit(replay(&args[2]));
+    }
+    if args.len() >= 3 && args[1] == "firstuse" {
+        std::process::exit(firstuse(&args[2]));
     }
     let seed: u64 = args[2].parse().unwrap();
     let cases: u32 = args[3].parse().unwrap();
